@@ -34,7 +34,7 @@ Proof.
   rewrite repeat_false_split by lia. rewrite <- app_assoc.
   apply take_bits_of; [lia|]. pose proof (pow2_pos n). lia.
 Qed.
-Lemma take_short {A} n (bs : list bool) : lenZ bs < n -> take n bs = None.
+Lemma take_short n (bs : list bool) : lenZ bs < n -> take n bs = None.
 Proof. intros H. unfold take. destruct (lenZ bs <? n) eqn:E; [reflexivity | lia]. Qed.
 
 Lemma bits_of_8_head n : 0 <= n < 128 -> exists t, bits_of n 8 = false :: t.
@@ -68,11 +68,11 @@ Lemma dmode_of_inv mode m : dmode_of mode = Some m ->
   (mode = 8 /\ m = DKanji) \/ (mode = 13 /\ m = DHanzi).
 Proof.
   unfold dmode_of. intros H.
-  destruct (mode =? 1) eqn:E1; [injection H as <-; left; lia|].
-  destruct (mode =? 2) eqn:E2; [injection H as <-; right; left; lia|].
-  destruct (mode =? 4) eqn:E3; [injection H as <-; right; right; left; lia|].
-  destruct (mode =? 8) eqn:E4; [injection H as <-; right; right; right; left; lia|].
-  destruct (mode =? 13) eqn:E5; [injection H as <-; right; right; right; right; lia|].
+  destruct (mode =? 1) eqn:E1; [injection H as <-; left; split; [lia | reflexivity]|].
+  destruct (mode =? 2) eqn:E2; [injection H as <-; right; left; split; [lia | reflexivity]|].
+  destruct (mode =? 4) eqn:E3; [injection H as <-; right; right; left; split; [lia | reflexivity]|].
+  destruct (mode =? 8) eqn:E4; [injection H as <-; right; right; right; left; split; [lia | reflexivity]|].
+  destruct (mode =? 13) eqn:E5; [injection H as <-; right; right; right; right; split; [lia | reflexivity]|].
   discriminate H.
 Qed.
 Lemma mode_key_dmode_of mode m : dmode_of mode = Some m -> mode_key m = mode.
@@ -178,3 +178,939 @@ Proof.
   destruct (assocS c ECI_ASSIGNMENT_NUM) as [k|] eqn:E; [|discriminate H]. injection H as <-.
   exact (assocS_Forall (fun z => 0 <= z < 128) c _ k eci_table_small E).
 Qed.
+
+(* ------------------------------------------------------------------------------------------ *)
+(* 2. QR: one segment                                                                         *)
+(* ------------------------------------------------------------------------------------------ *)
+Lemma write_segment_qr_inv s r eci bits : write_segment s None r eci = Ok bits ->
+  exists hdr w,
+    ((has_eci eci s = true /\ exists n, eci_number (s_enc s) = Ok n /\ hdr = bits_of MODE_ECI 4 ++ bits_of n 8)
+     \/ (has_eci eci s = false /\ hdr = [])) /\
+    cci_length (s_mode s) r = Ok w /\
+    bits = hdr ++ (bits_of (s_mode s) 4 ++ (if s_mode s =? MODE_HANZI then bits_of 1 4 else []))
+               ++ bits_of (s_count s) w ++ s_bits s.
+Proof.
+  unfold write_segment. cbv zeta. fold (has_eci eci s). intros H.
+  destruct (has_eci eci s) eqn:He.
+  - destruct (eci_number (s_enc s)) as [n|e] eqn:En; [|discriminate H]. cbn [bind] in H.
+    destruct (cci_length (s_mode s) r) as [w|e] eqn:Ew; [|discriminate H]. cbn [bind] in H.
+    injection H as <-. exists (bits_of MODE_ECI 4 ++ bits_of n 8), w.
+    split; [left; split; [reflexivity|]; exists n; split; reflexivity|]. split; reflexivity.
+  - cbn [bind] in H.
+    destruct (cci_length (s_mode s) r) as [w|e] eqn:Ew; [|discriminate H]. cbn [bind] in H.
+    injection H as <-. exists [], w. split; [right; split; reflexivity|]. split; reflexivity.
+Qed.
+
+(* the ECI header: mode indicator 0111 and a one-byte designator *)
+Lemma parse_qr_eci_step f v e n rest acc : 0 <= n < 128 ->
+  parse_qr (S f) v e ((bits_of MODE_ECI 4 ++ bits_of n 8) ++ rest) acc = parse_qr f v (Some n) rest acc.
+Proof.
+  intros Hn. rewrite <- app_assoc. cbn [parse_qr].
+  rewrite take_bits_of by (unfold MODE_ECI; lia).
+  change (MODE_ECI =? 0) with false. change (MODE_ECI =? 7) with true. cbv iota.
+  assert (E : read_eci (bits_of n 8 ++ rest) = take 8 (bits_of n 8 ++ rest)).
+  { destruct (bits_of_8_head n Hn) as [t Ht]. rewrite Ht. reflexivity. }
+  rewrite E, take_bits_of by lia. reflexivity.
+Qed.
+
+(* mode indicator (+ Hanzi subset), count indicator, payload *)
+Lemma parse_qr_seg_core f v e mode m w count payload data rest acc :
+  dmode_of mode = Some m -> cci m (qr_range v) = Some w -> 0 <= w -> 0 <= count < 2 ^ w ->
+  read_payload m count (payload ++ rest) = Some (data, rest) ->
+  parse_qr (S f) v e
+    ((bits_of mode 4 ++ (if mode =? MODE_HANZI then bits_of 1 4 else [])) ++ bits_of count w ++ payload ++ rest) acc
+  = parse_qr f v None rest ({| d_mode := m; d_eci := e; d_count := count; d_bytes := data |} :: acc).
+Proof.
+  intros Hm Hw Hw0 Hc Hrp. apply dmode_of_inv in Hm.
+  destruct Hm as [[-> ->]|[[-> ->]|[[-> ->]|[[-> ->]|[-> ->]]]]];
+    rewrite <- !app_assoc; cbn [parse_qr];
+    rewrite take_bits_of by lia;
+    cbn [Z.eqb Pos.eqb MODE_HANZI app]; rewrite ?take_bits_of by lia; cbv iota;
+    rewrite Hw, take_bits_of by assumption; rewrite Hrp; reflexivity.
+Qed.
+
+Definition seg_fuel (eci : bool) (s : segment) : nat := if has_eci eci s then 2%nat else 1%nat.
+
+(* 1. one step of parse_qr consumes exactly one written segment *)
+Theorem write_segment_parse_qr : forall v eci s data bits,
+  1 <= v <= 40 ->
+  seg_of_data s data ->
+  0 <= s_count s < 2 ^ cci_w (s_mode s) (qr_range v) ->
+  write_segment s None (qr_range v) eci = Ok bits ->
+  (seg_fuel eci s <= List.length bits)%nat /\
+  forall f rest acc,
+    parse_qr (seg_fuel eci s + f) v None (bits ++ rest) acc
+    = parse_qr f v None rest (expected_dseg eci s data (eci_opt s) :: acc).
+Proof.
+  intros v eci s data bits Hv Hsd Hcnt Hws.
+  destruct (write_segment_qr_inv s (qr_range v) eci bits Hws) as (hdr & w & Hhdr & Hw & ->).
+  destruct (seg_payload s data Hsd) as (m & Hm & _ & Hrp).
+  unfold cci_w in Hcnt. rewrite Hw in Hcnt.
+  pose proof (qr_range_bounds v) as Hr.
+  assert (Hwb : 3 <= w <= 16) by (apply (cci_length_bounds (s_mode s) (qr_range v) w m Hm); [lia | exact Hw]).
+  pose proof (cci_length_cci _ _ _ _ Hm Hw) as Hcci.
+  unfold expected_dseg, seg_fuel. rewrite Hm.
+  destruct Hhdr as [[He (n & Hn & ->)]|[He ->]]; rewrite He.
+  - split.
+    { rewrite !app_length, !bits_of_length. change (Z.to_nat 4) with 4%nat. lia. }
+    intros f rest acc. change (2 + f)%nat with (S (S f)).
+    rewrite <- (app_assoc (bits_of MODE_ECI 4 ++ bits_of n 8)).
+    rewrite parse_qr_eci_step by (eapply eci_number_bound; exact Hn).
+    rewrite <- !app_assoc. rewrite (app_assoc (bits_of (s_mode s) 4)).
+    rewrite (parse_qr_seg_core f v (Some n) (s_mode s) m w (s_count s) (s_bits s) data rest acc Hm Hcci
+               ltac:(lia) Hcnt (Hrp rest)).
+    unfold eci_opt. rewrite Hn. reflexivity.
+  - split.
+    { cbn [app]. rewrite !app_length, !bits_of_length. change (Z.to_nat 4) with 4%nat. lia. }
+    intros f rest acc. change (1 + f)%nat with (S f). cbn [app].
+    rewrite <- !app_assoc. rewrite (app_assoc (bits_of (s_mode s) 4)).
+    rewrite (parse_qr_seg_core f v None (s_mode s) m w (s_count s) (s_bits s) data rest acc Hm Hcci
+               ltac:(lia) Hcnt (Hrp rest)).
+    reflexivity.
+Qed.
+Print Assumptions write_segment_parse_qr.
+
+(* ------------------------------------------------------------------------------------------ *)
+(* 3. QR: a list of segments, then a tail on which the parser stops                           *)
+(* ------------------------------------------------------------------------------------------ *)
+(* a segment paired with its content; [r] is the count-indicator column (QR: version range, Micro: version) *)
+Definition seg_ok (r : Z) (p : segment * list Z) : Prop :=
+  seg_of_data (fst p) (snd p) /\ 0 <= s_count (fst p) < 2 ^ cci_w (s_mode (fst p)) r.
+Definition expected_dsegs (eci : bool) (sd : list (segment * list Z)) : list dsegment :=
+  map (fun p => expected_dseg eci (fst p) (snd p) (eci_opt (fst p))) sd.
+
+Lemma write_segments_parse_qr_gen v eci : 1 <= v <= 40 ->
+  forall sd stream,
+  Forall (seg_ok (qr_range v)) sd ->
+  write_segments (map fst sd) None (qr_range v) eci = Ok stream ->
+  exists K, (K <= List.length stream)%nat /\
+    forall f rest acc,
+      parse_qr (K + f) v None (stream ++ rest) acc
+      = parse_qr f v None rest (rev (expected_dsegs eci sd) ++ acc).
+Proof.
+  intros Hv. induction sd as [|[s data] sd IH]; intros stream HF Hws.
+  - cbn [map write_segments] in Hws. injection Hws as <-. exists 0%nat. split; [cbn [List.length]; lia|].
+    intros f rest acc. reflexivity.
+  - apply Forall_cons_iff in HF as [[Hsd Hcnt] HF]. cbn [fst snd] in Hsd, Hcnt.
+    cbn [map write_segments fst] in Hws.
+    destruct (write_segment s None (qr_range v) eci) as [a|e] eqn:Ea; [|discriminate Hws]. cbn [bind] in Hws.
+    destruct (write_segments (map fst sd) None (qr_range v) eci) as [b|e] eqn:Eb; [|discriminate Hws].
+    cbn [bind] in Hws. injection Hws as <-.
+    destruct (IH b HF eq_refl) as (K & HK & HIH).
+    destruct (write_segment_parse_qr v eci s data a Hv Hsd Hcnt Ea) as [Hk Hstep].
+    exists (seg_fuel eci s + K)%nat. split; [rewrite app_length; lia|].
+    intros f rest acc. rewrite <- app_assoc, <- Nat.add_assoc.
+    rewrite Hstep, HIH. cbn [expected_dsegs map rev fst snd]. rewrite <- app_assoc. reflexivity.
+Qed.
+
+(* the parser stops on: fewer than four bits, or the terminator 0000 *)
+Definition tail_stops_qr (tail : list bool) : Prop :=
+  lenZ tail < 4 \/ exists t, tail = false :: false :: false :: false :: t.
+
+Lemma take_4_zeros t : take 4 (false :: false :: false :: false :: t) = Some (0, t).
+Proof. change (false :: false :: false :: false :: t) with (bits_of 0 4 ++ t). apply take_bits_of; lia. Qed.
+
+Lemma parse_qr_stop f v e tail acc : tail_stops_qr tail -> parse_qr (S f) v e tail acc = Some (rev acc, tail).
+Proof.
+  intros [Hs|[t ->]]; cbn [parse_qr].
+  - now rewrite take_short.
+  - rewrite take_4_zeros. reflexivity.
+Qed.
+
+(* 2. all segments are read back, and nothing after them is taken for a segment *)
+Theorem write_segments_parse_qr : forall v eci sd stream tail fuel,
+  1 <= v <= 40 ->
+  Forall (seg_ok (qr_range v)) sd ->
+  write_segments (map fst sd) None (qr_range v) eci = Ok stream ->
+  tail_stops_qr tail ->
+  (List.length stream < fuel)%nat ->
+  parse_qr fuel v None (stream ++ tail) [] = Some (expected_dsegs eci sd, tail).
+Proof.
+  intros v eci sd stream tail fuel Hv HF Hws Htail Hfuel.
+  destruct (write_segments_parse_qr_gen v eci Hv sd stream HF Hws) as (K & HK & Hgen).
+  replace fuel with (K + S (fuel - K - 1))%nat by lia.
+  rewrite Hgen, app_nil_r, parse_qr_stop by exact Htail. now rewrite rev_involutive.
+Qed.
+Print Assumptions write_segments_parse_qr.
+
+(* the decoder's own fuel, S (length of all bits), suffices *)
+Corollary write_segments_parse_qr_decoder_fuel : forall v eci sd stream tail,
+  1 <= v <= 40 ->
+  Forall (seg_ok (qr_range v)) sd ->
+  write_segments (map fst sd) None (qr_range v) eci = Ok stream ->
+  tail_stops_qr tail ->
+  parse_qr (S (List.length (stream ++ tail))) v None (stream ++ tail) [] = Some (expected_dsegs eci sd, tail).
+Proof.
+  intros v eci sd stream tail Hv HF Hws Htail.
+  apply write_segments_parse_qr; try assumption. rewrite app_length. lia.
+Qed.
+
+(* ------------------------------------------------------------------------------------------ *)
+(* 4. what iso_pad / iso_pad_kf append: a block of zeros that is a full terminator unless the   *)
+(*    capacity is exhausted, in which case nothing follows it                                   *)
+(* ------------------------------------------------------------------------------------------ *)
+Lemma pad_tail_form v cap stream :
+  -3 <= v <= 40 -> 0 <= cap ->
+  cap mod 8 = (if (v =? -3) || (v =? -1) then 4 else 0) ->
+  lenZ stream <= cap ->
+  exists k more,
+    iso_pad v cap stream = stream ++ repeat false (Z.to_nat k) ++ more /\
+    0 <= k <= iso_terminator_length v /\ (k = iso_terminator_length v \/ more = []).
+Proof.
+  intros Hv Hcap Hmod Hlen.
+  destruct (iso_pad_suffix v cap stream Hv Hcap Hmod Hlen)
+    as (t & f & n & z & Heq & Ht & Ht0 & Hf & Hn & Hz & Hsum & _ & _).
+  pose proof (iso_terminator_length_bounds v Hv) as HT.
+  exists t, (repeat false (Z.to_nat f) ++ flat_map pad_byte (zrange 0 n) ++ repeat false (Z.to_nat z)).
+  split; [exact Heq|]. split; [lia|].
+  destruct (Z.eq_dec t (iso_terminator_length v)) as [E|NE]; [left; exact E | right].
+  assert (f = 0) by lia. assert (n = 0) by lia. assert (z = 0) by lia. subst f n z. reflexivity.
+Qed.
+
+Lemma pad_kf_tail_form v cap stream :
+  -3 <= v <= 40 -> 0 <= cap ->
+  cap mod 8 = (if (v =? -3) || (v =? -1) then 4 else 0) ->
+  lenZ stream <= cap ->
+  exists k more,
+    iso_pad_kf v cap stream = stream ++ repeat false (Z.to_nat k) ++ more /\
+    0 <= k <= iso_terminator_length v /\ (k = iso_terminator_length v \/ more = []).
+Proof.
+  intros Hv Hcap Hmod Hlen. unfold iso_pad_kf. cbv zeta.
+  destruct (kf_pad_aligned v cap (lenZ stream)) eqn:Hkf; [|now apply pad_tail_form].
+  pose proof (iso_terminator_length_bounds v Hv) as HT.
+  pose proof (lenZ_nonneg stream) as Hl0.
+  unfold kf_pad_aligned in Hkf. cbv zeta in Hkf.
+  remember (Z.min (cap - lenZ stream) (iso_terminator_length v)) as t eqn:Et.
+  eexists t, _. split; [reflexivity|].
+  apply andb_prop in Hkf as [_ Hlt]. split; [lia | left; lia].
+Qed.
+
+Lemma tail_stops_qr_zeros k more : 0 <= k <= 4 -> (k = 4 \/ more = []) ->
+  tail_stops_qr (repeat false (Z.to_nat k) ++ more).
+Proof.
+  intros Hk [->| ->].
+  - right. change (Z.to_nat 4) with 4%nat. cbn [repeat app]. eexists. reflexivity.
+  - destruct (Z.eq_dec k 4) as [->|NE].
+    + right. change (Z.to_nat 4) with 4%nat. cbn [repeat app]. eexists. reflexivity.
+    + left. rewrite app_nil_r, lenZ_repeat. lia.
+Qed.
+
+Lemma qr_cap_mod v cap : 1 <= v -> cap mod 8 = 0 -> cap mod 8 = (if (v =? -3) || (v =? -1) then 4 else 0).
+Proof. intros Hv Hc. destruct ((v =? -3) || (v =? -1)) eqn:E; [lia | exact Hc]. Qed.
+Lemma qr_terminator v : 1 <= v -> iso_terminator_length v = 4.
+Proof. intros Hv. unfold iso_terminator_length. destruct (0 <? v) eqn:E; [reflexivity | lia]. Qed.
+
+(* 4. the padded stream of a QR symbol parses to exactly the written segments; what is left over is the
+   terminator and padding that iso_pad / iso_pad_kf appended *)
+Theorem parse_padded_stream_qr : forall v cap eci sd stream,
+  1 <= v <= 40 ->
+  Forall (seg_ok (qr_range v)) sd ->
+  write_segments (map fst sd) None (qr_range v) eci = Ok stream ->
+  0 <= cap -> cap mod 8 = 0 -> lenZ stream <= cap ->
+  forall bs, bs = iso_pad_kf v cap stream \/ bs = iso_pad v cap stream ->
+  exists tail, bs = stream ++ tail /\
+    parse_qr (S (List.length bs)) v None bs [] = Some (expected_dsegs eci sd, tail).
+Proof.
+  intros v cap eci sd stream Hv HF Hws Hcap Hmod Hlen bs Hbs.
+  assert (Hform : exists k more, bs = stream ++ repeat false (Z.to_nat k) ++ more /\
+             0 <= k <= iso_terminator_length v /\ (k = iso_terminator_length v \/ more = [])).
+  { destruct Hbs as [-> | ->]; [apply pad_kf_tail_form | apply pad_tail_form];
+      try assumption; try lia; apply qr_cap_mod; lia. }
+  destruct Hform as (k & more & -> & Hk & Hfull). rewrite qr_terminator in Hk, Hfull by lia.
+  eexists. split; [reflexivity|].
+  apply write_segments_parse_qr_decoder_fuel; try assumption.
+  now apply tail_stops_qr_zeros.
+Qed.
+Print Assumptions parse_padded_stream_qr.
+
+(* ------------------------------------------------------------------------------------------ *)
+(* 5. count_fits: a segment that fits the symbol has a count that fits its count indicator     *)
+(* ------------------------------------------------------------------------------------------ *)
+Definition cci_col (v : Z) : Z := if 0 <? v then qr_range v else v.       (* column of Table 3 *)
+Definition mode_ind_len (v : Z) : Z := if 0 <? v then 4 else v + 3.       (* mode indicator bits *)
+
+Lemma payload_bits_mono m a b : In m [1; 2; 4; 8; 13] -> 0 <= a <= b -> payload_bits m a <= payload_bits m b.
+Proof.
+  intros Hm Hab. cbn [In] in Hm.
+  destruct Hm as [<-|[<-|[<-|[<-|[<-|[]]]]]].
+  - rewrite !payload_bits_numeric.
+    destruct (a mod 3 =? 0) eqn:A0; destruct (a mod 3 =? 1) eqn:A1;
+      destruct (b mod 3 =? 0) eqn:B0; destruct (b mod 3 =? 1) eqn:B1; lia.
+  - change (payload_bits 2 a) with (11 * (a / 2) + 6 * (a mod 2)).
+    change (payload_bits 2 b) with (11 * (b / 2) + 6 * (b mod 2)). lia.
+  - rewrite !payload_bits_byte. lia.
+  - rewrite !payload_bits_13 by (left; reflexivity). lia.
+  - rewrite !payload_bits_13 by (right; reflexivity). lia.
+Qed.
+
+(* for every version, every capacity of its row of Table 7, every mode with a count indicator there:
+   the smallest count that does NOT fit the indicator does not fit the symbol either *)
+Lemma count_fits_fin :
+  forallb (fun v =>
+    match assocZ v SYMBOL_CAPACITY with
+    | None => false
+    | Some row =>
+        forallb (fun p : option Z * Z => forallb (fun m =>
+          match cci_length m (cci_col v) with
+          | Ok w => (0 <=? w) && (snd p <? mode_ind_len v + w + payload_bits m (2 ^ w))
+          | Err _ => true end) [1; 2; 4; 8; 13]) row
+    end) (zrange (-3) 41) = true.
+Proof. vm_compute. reflexivity. Qed.
+
+Lemma assocOZ_In {A} k : forall (l : list (option Z * A)) x, assocOZ k l = Some x -> exists k', In (k', x) l.
+Proof.
+  induction l as [|[k' y] l IH]; intros x H; cbn [assocOZ] in H; [discriminate H|].
+  destruct (oz_eqb k k').
+  - injection H as <-. exists k'. now left.
+  - destruct (IH x H) as [k'' Hin]. exists k''. now right.
+Qed.
+
+Theorem count_fits : forall v l m w cap c,
+  -3 <= v <= 40 ->
+  spec_capacity v l = Some cap ->
+  In m [1; 2; 4; 8; 13] ->
+  cci_length m (cci_col v) = Ok w ->
+  mode_ind_len v + w + payload_bits m c <= cap ->
+  c < 2 ^ w.
+Proof.
+  intros v l m w cap c Hv Hcap Hm Hw Hfit.
+  pose proof (proj1 (forallb_forall _ _) count_fits_fin v (zrange_In (-3) 41 v ltac:(lia))) as F.
+  cbv beta in F. unfold spec_capacity in Hcap.
+  destruct (assocZ v SYMBOL_CAPACITY) as [row|]; [|discriminate F].
+  destruct (assocOZ_In l row cap Hcap) as [l' Hin].
+  pose proof (proj1 (forallb_forall _ _) F (l', cap) Hin) as G. cbv beta in G.
+  pose proof (proj1 (forallb_forall _ _) G m Hm) as H. cbv beta in H.
+  rewrite Hw in H. cbn [snd] in H. apply andb_prop in H as [Hw0 Hno].
+  destruct (Z_lt_le_dec c (2 ^ w)) as [Hlt|Hge]; [exact Hlt | exfalso].
+  pose proof (pow2_pos w ltac:(lia)) as Hp.
+  pose proof (payload_bits_mono m (2 ^ w) c Hm ltac:(lia)) as Hmono. lia.
+Qed.
+Print Assumptions count_fits.
+
+Lemma capacity_spec v l cap : capacity v l = Ok cap -> spec_capacity v l = Some cap.
+Proof.
+  unfold capacity, spec_capacity, getZ, getOZ. intros H.
+  destruct (assocZ v SYMBOL_CAPACITY) as [row|]; [|discriminate H]. cbn [bind] in H.
+  destruct (assocOZ l row) as [x|]; [|discriminate H]. congruence.
+Qed.
+
+(* ------------------------------------------------------------------------------------------ *)
+(* 6. Micro QR: one segment                                                                   *)
+(* ------------------------------------------------------------------------------------------ *)
+Definition micro_dmode (ind : Z) : dmode :=
+  match ind with 0 => DNumeric | 1 => DAlnum | 2 => DByte | _ => DKanji end.
+
+Ltac micro_case Ehm Hw :=
+  let Hw' := fresh "Hw'" in
+  pose proof Hw as Hw';
+  cbn [getZ assocZ bind MODE_TO_MICRO_MODE_MAPPING
+       Z.eqb Pos.eqb Z.ltb Z.compare Pos.compare Pos.compare_cont VERSION_M1 CompOpp] in Ehm;
+  vm_compute in Hw';
+  first [ discriminate Hw'
+        | discriminate Ehm
+        | injection Ehm as <-; split; [reflexivity|];
+          repeat split; try exact Hw; try lia; try reflexivity; try (vm_compute; reflexivity); intros; lia ].
+
+Lemma write_segment_micro_inv s v bits m : -3 <= v <= 0 -> dmode_of (s_mode s) = Some m ->
+  write_segment s (Some v) v false = Ok bits ->
+  exists ind w,
+    bits = bits_of ind (v + 3) ++ bits_of (s_count s) w ++ s_bits s /\
+    0 <= ind <= 3 /\ ind < 2 ^ (v + 3) /\ micro_dmode ind = m /\ (ind = 0 -> s_mode s = 1) /\
+    cci_length (s_mode s) v = Ok w.
+Proof.
+  intros Hv Hm H. unfold write_segment in H. cbv zeta in H. cbn [andb bind] in H.
+  match type of H with bind ?X _ = _ => destruct X as [hm|e] eqn:Ehm end; [|discriminate H].
+  cbn [bind] in H.
+  destruct (cci_length (s_mode s) v) as [w|e] eqn:Hw; [|discriminate H].
+  cbn [bind app] in H. injection H as <-.
+  apply dmode_of_inv in Hm.
+  assert (Hvs : v = -3 \/ v = -2 \/ v = -1 \/ v = 0) by lia.
+  destruct Hm as [[Hmode ->]|[[Hmode ->]|[[Hmode ->]|[[Hmode ->]|[Hmode ->]]]]]; rewrite Hmode in *;
+    [exists 0, w | exists 1, w | exists 2, w | exists 3, w | exfalso];
+    destruct Hvs as [->|[->|[->| ->]]]; micro_case Ehm Hw.
+Qed.
+
+Lemma parse_micro_seg_core f v ind w count payload data rest acc :
+  -3 <= v <= 0 -> 0 <= ind <= 3 -> ind < 2 ^ (v + 3) ->
+  cci (micro_dmode ind) v = Some w -> 0 <= w -> 0 <= count < 2 ^ w -> (ind = 0 -> count <> 0) ->
+  read_payload (micro_dmode ind) count (payload ++ rest) = Some (data, rest) ->
+  parse_micro (S f) v (bits_of ind (v + 3) ++ bits_of count w ++ payload ++ rest) acc
+  = parse_micro f v rest
+      ({| d_mode := micro_dmode ind; d_eci := None; d_count := count; d_bytes := data |} :: acc).
+Proof.
+  intros Hv Hind Hlt Hw Hw0 Hc Hnz Hrp. cbn [parse_micro].
+  rewrite take_bits_of by lia.
+  assert (Hcases : ind = 0 \/ ind = 1 \/ ind = 2 \/ ind = 3) by lia.
+  destruct Hcases as [->|[->|[->| ->]]]; cbn [micro_dmode] in *; cbv iota beta;
+    rewrite Hw, take_bits_of by assumption;
+    (match goal with |- context [if ?b then _ else _] => destruct b eqn:E end;
+     [exfalso; lia|]); rewrite Hrp; reflexivity.
+Qed.
+
+(* 3a. one step of parse_micro consumes exactly one written segment *)
+Theorem write_segment_parse_micro : forall v s data bits,
+  -3 <= v <= 0 ->
+  seg_of_data s data ->
+  0 <= s_count s < 2 ^ cci_w (s_mode s) v ->
+  (s_mode s = 1 -> s_count s <> 0) ->
+  write_segment s (Some v) v false = Ok bits ->
+  (1 <= List.length bits)%nat /\
+  forall f rest acc,
+    parse_micro (S f) v (bits ++ rest) acc = parse_micro f v rest (expected_dseg false s data None :: acc).
+Proof.
+  intros v s data bits Hv Hsd Hcnt Hnz Hws.
+  destruct (seg_payload s data Hsd) as (m & Hm & _ & Hrp).
+  destruct (write_segment_micro_inv s v bits m Hv Hm Hws) as (ind & w & -> & Hind & Hlt & Hdm & Hi0 & Hw).
+  unfold cci_w in Hcnt. rewrite Hw in Hcnt.
+  assert (Hwb : 3 <= w <= 16) by (apply (cci_length_bounds (s_mode s) v w m Hm); [lia | exact Hw]).
+  pose proof (cci_length_cci _ _ _ _ Hm Hw) as Hcci.
+  split.
+  { rewrite !app_length, !bits_of_length. lia. }
+  intros f rest acc. unfold expected_dseg. rewrite Hm. change (has_eci false s) with false. cbv iota.
+  subst m. rewrite <- !app_assoc.
+  apply parse_micro_seg_core; try assumption; try lia; try apply Hrp.
+Qed.
+Print Assumptions write_segment_parse_micro.
+
+(* ------------------------------------------------------------------------------------------ *)
+(* 7. Micro QR: a list of segments and the stop condition                                      *)
+(* ------------------------------------------------------------------------------------------ *)
+(* in a Micro QR symbol a numeric header with count 0 IS the terminator, so no segment may look like that *)
+Definition seg_ok_micro (v : Z) (p : segment * list Z) : Prop :=
+  seg_ok v p /\ (s_mode (fst p) = 1 -> s_count (fst p) <> 0).
+
+Lemma write_segments_parse_micro_gen v : -3 <= v <= 0 ->
+  forall sd stream,
+  Forall (seg_ok_micro v) sd ->
+  write_segments (map fst sd) (Some v) v false = Ok stream ->
+  (List.length sd <= List.length stream)%nat /\
+  forall f rest acc,
+    parse_micro (List.length sd + f) v (stream ++ rest) acc
+    = parse_micro f v rest (rev (expected_dsegs false sd) ++ acc).
+Proof.
+  intros Hv. induction sd as [|[s data] sd IH]; intros stream HF Hws.
+  - cbn [map write_segments] in Hws. injection Hws as <-. split; [cbn [List.length]; lia|].
+    intros f rest acc. reflexivity.
+  - apply Forall_cons_iff in HF as [[[Hsd Hcnt] Hnz] HF]. cbn [fst snd] in Hsd, Hcnt, Hnz.
+    cbn [map write_segments fst] in Hws.
+    destruct (write_segment s (Some v) v false) as [a|e] eqn:Ea; [|discriminate Hws]. cbn [bind] in Hws.
+    destruct (write_segments (map fst sd) (Some v) v false) as [b|e] eqn:Eb; [|discriminate Hws].
+    cbn [bind] in Hws. injection Hws as <-.
+    destruct (IH b HF eq_refl) as (HK & HIH).
+    destruct (write_segment_parse_micro v s data a Hv Hsd Hcnt Hnz Ea) as [Hk Hstep].
+    split; [rewrite app_length; cbn [List.length]; lia|].
+    intros f rest acc. rewrite <- app_assoc. cbn [List.length Nat.add].
+    rewrite Hstep, HIH. cbn [expected_dsegs map rev fst snd]. rewrite <- app_assoc. reflexivity.
+Qed.
+
+Lemma micro_terminator v : v <= 0 -> iso_terminator_length v = 2 * v + 9.
+Proof. intros Hv. unfold iso_terminator_length. destruct (0 <? v) eqn:E; lia. Qed.
+Lemma cci_numeric_micro v : -3 <= v <= 0 -> cci DNumeric v = Some (v + 6).
+Proof.
+  intros Hv. assert (Hvs : v = -3 \/ v = -2 \/ v = -1 \/ v = 0) by lia.
+  destruct Hvs as [->|[->|[->| ->]]]; reflexivity.
+Qed.
+
+(* mode indicator length + numeric count length = terminator length: a complete terminator reads as
+   "numeric, count 0"; a truncated one leaves fewer bits than a header needs *)
+Lemma parse_micro_stop f v k more acc :
+  -3 <= v <= 0 -> 0 <= k <= iso_terminator_length v -> (k = iso_terminator_length v \/ more = []) ->
+  parse_micro (S f) v (repeat false (Z.to_nat k) ++ more) acc
+  = Some (rev acc, repeat false (Z.to_nat k) ++ more).
+Proof.
+  intros Hv Hk Hfull. rewrite micro_terminator in Hk, Hfull by lia.
+  remember (repeat false (Z.to_nat k) ++ more) as tail eqn:Etail.
+  cbn [parse_micro].
+  destruct (Z_lt_le_dec k (v + 3)) as [Hsmall|Hbig].
+  - assert (more = []) as -> by (destruct Hfull as [E|E]; [lia | exact E]).
+    rewrite app_nil_r in Etail.
+    rewrite take_short; [reflexivity|]. subst tail. rewrite lenZ_repeat. lia.
+  - assert (E1 : take (v + 3) tail = Some (0, repeat false (Z.to_nat (k - (v + 3))) ++ more)).
+    { subst tail. apply take_zeros. lia. }
+    rewrite E1. cbv iota beta. rewrite cci_numeric_micro by exact Hv.
+    destruct Hfull as [Hfull| ->].
+    + rewrite take_zeros by lia. reflexivity.
+    + destruct (Z.eq_dec k (2 * v + 9)) as [Ek|NE].
+      * rewrite take_zeros by lia. reflexivity.
+      * rewrite take_short; [reflexivity|]. rewrite app_nil_r, lenZ_repeat. lia.
+Qed.
+
+(* 3b. all Micro QR segments are read back and the parser stops on the terminator / end of capacity *)
+Theorem write_segments_parse_micro : forall v sd stream k more fuel,
+  -3 <= v <= 0 ->
+  Forall (seg_ok_micro v) sd ->
+  write_segments (map fst sd) (Some v) v false = Ok stream ->
+  0 <= k <= iso_terminator_length v -> (k = iso_terminator_length v \/ more = []) ->
+  (List.length stream < fuel)%nat ->
+  parse_micro fuel v (stream ++ repeat false (Z.to_nat k) ++ more) []
+  = Some (expected_dsegs false sd, repeat false (Z.to_nat k) ++ more).
+Proof.
+  intros v sd stream k more fuel Hv HF Hws Hk Hfull Hfuel.
+  destruct (write_segments_parse_micro_gen v Hv sd stream HF Hws) as (HK & Hgen).
+  replace fuel with (List.length sd + S (fuel - List.length sd - 1))%nat by lia.
+  rewrite Hgen, app_nil_r, parse_micro_stop by assumption. now rewrite rev_involutive.
+Qed.
+Print Assumptions write_segments_parse_micro.
+
+(* 4 (Micro). the padded stream of a Micro QR symbol *)
+Theorem parse_padded_stream_micro : forall v cap sd stream,
+  -3 <= v <= 0 ->
+  Forall (seg_ok_micro v) sd ->
+  write_segments (map fst sd) (Some v) v false = Ok stream ->
+  0 <= cap -> cap mod 8 = (if (v =? -3) || (v =? -1) then 4 else 0) -> lenZ stream <= cap ->
+  forall bs, bs = iso_pad_kf v cap stream \/ bs = iso_pad v cap stream ->
+  exists tail, bs = stream ++ tail /\
+    parse_micro (S (List.length bs)) v bs [] = Some (expected_dsegs false sd, tail).
+Proof.
+  intros v cap sd stream Hv HF Hws Hcap Hmod Hlen bs Hbs.
+  assert (Hform : exists k more, bs = stream ++ repeat false (Z.to_nat k) ++ more /\
+             0 <= k <= iso_terminator_length v /\ (k = iso_terminator_length v \/ more = [])).
+  { destruct Hbs as [-> | ->]; [apply pad_kf_tail_form | apply pad_tail_form]; try assumption; lia. }
+  destruct Hform as (k & more & -> & Hk & Hfull).
+  eexists. split; [reflexivity|].
+  apply write_segments_parse_micro; try assumption. rewrite app_length. lia.
+Qed.
+Print Assumptions parse_padded_stream_micro.
+
+(* ------------------------------------------------------------------------------------------ *)
+(* 8. fitting the symbol implies the count bounds: final forms without the count hypothesis    *)
+(* ------------------------------------------------------------------------------------------ *)
+Lemma write_segments_In ver r eci : forall segs stream s,
+  write_segments segs ver r eci = Ok stream -> In s segs ->
+  exists bits, write_segment s ver r eci = Ok bits /\ lenZ bits <= lenZ stream.
+Proof.
+  induction segs as [|s0 segs IH]; intros stream s Hws Hin; [destruct Hin|].
+  cbn [write_segments] in Hws.
+  destruct (write_segment s0 ver r eci) as [a|e] eqn:Ea; [|discriminate Hws]. cbn [bind] in Hws.
+  destruct (write_segments segs ver r eci) as [b|e] eqn:Eb; [|discriminate Hws]. cbn [bind] in Hws.
+  injection Hws as <-. rewrite lenZ_app.
+  pose proof (lenZ_nonneg a) as Ha. pose proof (lenZ_nonneg b) as Hb.
+  destruct Hin as [<-|Hin].
+  - exists a. split; [exact Ea | lia].
+  - destruct (IH b s eq_refl Hin) as (bits & Hbits & Hle). exists bits. split; [exact Hbits | lia].
+Qed.
+
+Lemma seg_count_nonneg s data : seg_of_data s data -> 0 <= s_count s.
+Proof.
+  intros (_ & Hc & _). rewrite Hc. unfold count_mode. pose proof (lenZ_nonneg data) as Hl.
+  destruct ((s_mode s =? MODE_KANJI) || (s_mode s =? MODE_HANZI)); lia.
+Qed.
+
+Lemma dmode_of_In mode m : dmode_of mode = Some m -> In mode [1; 2; 4; 8; 13].
+Proof. intros H. apply dmode_of_inv in H. cbn [In]. lia. Qed.
+
+Theorem fits_seg_ok_qr : forall v l cap eci sd stream,
+  1 <= v <= 40 ->
+  spec_capacity v l = Some cap ->
+  Forall (fun p => seg_of_data (fst p) (snd p)) sd ->
+  write_segments (map fst sd) None (qr_range v) eci = Ok stream ->
+  lenZ stream <= cap ->
+  Forall (seg_ok (qr_range v)) sd.
+Proof.
+  intros v l cap eci sd stream Hv Hcap HF Hws Hlen.
+  apply Forall_forall. intros p Hin.
+  pose proof (proj1 (Forall_forall _ _) HF p Hin) as Hsd. cbv beta in Hsd.
+  destruct (write_segments_In None (qr_range v) eci _ stream (fst p) Hws (in_map fst sd p Hin))
+    as (bits & Hbits & Hle).
+  destruct (write_segment_qr_inv _ _ _ _ Hbits) as (hdr & w & _ & Hw & Hb).
+  destruct (seg_payload _ _ Hsd) as (m & Hm & Hpl & _).
+  split; [exact Hsd|]. split; [now apply (seg_count_nonneg _ (snd p))|].
+  unfold cci_w. rewrite Hw.
+  assert (Hwb : 3 <= w <= 16).
+  { apply (cci_length_bounds (s_mode (fst p)) (qr_range v) w m Hm); [pose proof (qr_range_bounds v); lia | exact Hw]. }
+  apply (count_fits v l (s_mode (fst p)) w cap); [lia | exact Hcap | now apply (dmode_of_In _ m) | |].
+  - unfold cci_col. destruct (0 <? v) eqn:E; [exact Hw | lia].
+  - unfold mode_ind_len. destruct (0 <? v) eqn:E; [|lia].
+    rewrite <- Hpl. subst bits. rewrite !lenZ_app, !lenZ_bits_of in Hle by lia.
+    pose proof (lenZ_nonneg hdr).
+    pose proof (lenZ_nonneg (if s_mode (fst p) =? MODE_HANZI then bits_of 1 4 else [])). lia.
+Qed.
+
+Theorem fits_seg_ok_micro : forall v l cap sd stream,
+  -3 <= v <= 0 ->
+  spec_capacity v l = Some cap ->
+  Forall (fun p => seg_of_data (fst p) (snd p)) sd ->
+  write_segments (map fst sd) (Some v) v false = Ok stream ->
+  lenZ stream <= cap ->
+  Forall (seg_ok v) sd.
+Proof.
+  intros v l cap sd stream Hv Hcap HF Hws Hlen.
+  apply Forall_forall. intros p Hin.
+  pose proof (proj1 (Forall_forall _ _) HF p Hin) as Hsd. cbv beta in Hsd.
+  destruct (write_segments_In (Some v) v false _ stream (fst p) Hws (in_map fst sd p Hin))
+    as (bits & Hbits & Hle).
+  destruct (seg_payload _ _ Hsd) as (m & Hm & Hpl & _).
+  destruct (write_segment_micro_inv _ v bits m Hv Hm Hbits) as (ind & w & Hb & _ & _ & _ & _ & Hw).
+  split; [exact Hsd|]. split; [now apply (seg_count_nonneg _ (snd p))|].
+  unfold cci_w. rewrite Hw.
+  assert (Hwb : 3 <= w <= 16).
+  { apply (cci_length_bounds (s_mode (fst p)) v w m Hm); [lia | exact Hw]. }
+  apply (count_fits v l (s_mode (fst p)) w cap); [lia | exact Hcap | now apply (dmode_of_In _ m) | |].
+  - unfold cci_col. destruct (0 <? v) eqn:E; [lia | exact Hw].
+  - unfold mode_ind_len. destruct (0 <? v) eqn:E; [lia|].
+    rewrite <- Hpl. subst bits. rewrite !lenZ_app, !lenZ_bits_of in Hle by lia. lia.
+Qed.
+Print Assumptions fits_seg_ok_qr.
+Print Assumptions fits_seg_ok_micro.
+
+(* Table 7: data capacities are whole codewords, except M1 / M3 whose last codeword has 4 bits *)
+Lemma capacity_mod8_fin :
+  forallb (fun v =>
+    match assocZ v SYMBOL_CAPACITY with
+    | None => false
+    | Some row => forallb (fun p : option Z * Z =>
+        (0 <=? snd p) && (snd p mod 8 =? (if (v =? -3) || (v =? -1) then 4 else 0))) row
+    end) (zrange (-3) 41) = true.
+Proof. vm_compute. reflexivity. Qed.
+
+Lemma capacity_mod8 v l cap : -3 <= v <= 40 -> spec_capacity v l = Some cap ->
+  0 <= cap /\ cap mod 8 = (if (v =? -3) || (v =? -1) then 4 else 0).
+Proof.
+  intros Hv Hcap.
+  pose proof (proj1 (forallb_forall _ _) capacity_mod8_fin v (zrange_In (-3) 41 v ltac:(lia))) as F.
+  cbv beta in F. unfold spec_capacity in Hcap.
+  destruct (assocZ v SYMBOL_CAPACITY) as [row|]; [|discriminate F].
+  destruct (assocOZ_In l row cap Hcap) as [l' Hin].
+  pose proof (proj1 (forallb_forall _ _) F (l', cap) Hin) as G. cbv beta in G. cbn [snd] in G.
+  apply andb_prop in G as [G1 G2]. split; [lia|].
+  destruct ((v =? -3) || (v =? -1)); lia.
+Qed.
+
+(* Main corollary, QR: segments that encode their contents, written by the model into a stream that fits
+   the data capacity of (v, l), then terminated and padded as ISO prescribes (or with the known deviation
+   D1): the reference parser, with the fuel decode_symbol gives it, returns exactly those contents and
+   leaves exactly the terminator / padding. *)
+Theorem parse_symbol_stream_qr : forall v l cap eci sd stream,
+  1 <= v <= 40 ->
+  spec_capacity v l = Some cap ->
+  Forall (fun p => seg_of_data (fst p) (snd p)) sd ->
+  write_segments (map fst sd) None (qr_range v) eci = Ok stream ->
+  lenZ stream <= cap ->
+  forall bs, bs = iso_pad_kf v cap stream \/ bs = iso_pad v cap stream ->
+  exists tail, bs = stream ++ tail /\
+    parse_qr (S (List.length bs)) v None bs [] = Some (expected_dsegs eci sd, tail).
+Proof.
+  intros v l cap eci sd stream Hv Hcap HF Hws Hlen bs Hbs.
+  destruct (capacity_mod8 v l cap ltac:(lia) Hcap) as [Hc0 Hc8].
+  apply (parse_padded_stream_qr v cap eci sd stream); try assumption.
+  - now apply (fits_seg_ok_qr v l cap eci sd stream).
+  - destruct ((v =? -3) || (v =? -1)) eqn:E; [lia | exact Hc8].
+Qed.
+Print Assumptions parse_symbol_stream_qr.
+
+(* Main corollary, Micro QR; the only extra hypothesis: no numeric segment with count 0 *)
+Theorem parse_symbol_stream_micro : forall v l cap sd stream,
+  -3 <= v <= 0 ->
+  spec_capacity v l = Some cap ->
+  Forall (fun p => seg_of_data (fst p) (snd p)) sd ->
+  Forall (fun p => s_mode (fst p) = 1 -> s_count (fst p) <> 0) sd ->
+  write_segments (map fst sd) (Some v) v false = Ok stream ->
+  lenZ stream <= cap ->
+  forall bs, bs = iso_pad_kf v cap stream \/ bs = iso_pad v cap stream ->
+  exists tail, bs = stream ++ tail /\
+    parse_micro (S (List.length bs)) v bs [] = Some (expected_dsegs false sd, tail).
+Proof.
+  intros v l cap sd stream Hv Hcap HF Hnz Hws Hlen bs Hbs.
+  destruct (capacity_mod8 v l cap ltac:(lia) Hcap) as [Hc0 Hc8].
+  apply (parse_padded_stream_micro v cap sd stream); try assumption.
+  pose proof (fits_seg_ok_micro v l cap sd stream Hv Hcap HF Hws Hlen) as Hok.
+  apply Forall_forall. intros p Hin. split.
+  - exact (proj1 (Forall_forall _ _) Hok p Hin).
+  - exact (proj1 (Forall_forall _ _) Hnz p Hin).
+Qed.
+Print Assumptions parse_symbol_stream_micro.
+
+(* ------------------------------------------------------------------------------------------ *)
+(* 9. the Micro QR hypothesis "no numeric segment with count 0" is necessary, and the encoder   *)
+(*    model never produces such a segment                                                      *)
+(* ------------------------------------------------------------------------------------------ *)
+(* an empty numeric segment in M2 is written as 0 0000, i.e. as a terminator; the reader (correctly, per
+   ISO) stops there.  This is a property of the symbology, not a defect of encoder or decoder. *)
+Example micro_empty_numeric_is_terminator :
+  let s := {| s_bits := []; s_count := 0; s_mode := 1; s_enc := None |} in
+  seg_of_data s [] /\
+  write_segment s (Some (-2)) (-2) false = Ok [false; false; false; false; false] /\
+  parse_micro 6 (-2) [false; false; false; false; false] [] = Some ([], [false; false; false; false; false]).
+Proof.
+  cbv zeta. split; [|split; vm_compute; reflexivity].
+  split; [reflexivity|]. split; [reflexivity|]. left. split; [reflexivity | constructor].
+Qed.
+
+Lemma find_mode_le1 data : find_mode data <= 1 -> lenZ data <> 0.
+Proof.
+  unfold find_mode, MODE_NUMERIC, MODE_ALPHANUMERIC, MODE_KANJI, MODE_BYTE.
+  destruct (negb (lenZ data =? 0) && forallb is_digit data) eqn:E1.
+  { intros _. apply andb_prop in E1 as [E1 _]. lia. }
+  destruct (negb (lenZ data =? 0) && forallb is_alnum_char data); [lia|].
+  destruct (is_kanji data); lia.
+Qed.
+
+Definition count_sane (x : segment) : Prop := 0 <= s_count x /\ (s_mode x = 1 -> s_count x <> 0).
+
+Lemma make_segment_count_sane c mode encoding s : make_segment c mode encoding = Ok s -> count_sane s.
+Proof.
+  unfold make_segment. intros H.
+  destruct (data_to_bytes c _) as [[data senc]|e]; [|discriminate H].
+  cbn [bind] in H.
+  match type of H with context [bind ?X _] =>
+    match X with (match mode with _ => _ end) => destruct X as [smode|e] eqn:Esm end end; [|discriminate H].
+  cbn [bind] in H.
+  match type of H with (if ?b then _ else _) = _ => destruct b end; [discriminate H|].
+  match type of H with context [bind ?X _] => destruct X as [bs|e] end; [|discriminate H].
+  cbn [bind] in H. injection H as <-. unfold count_sane. cbn [s_mode s_count].
+  pose proof (lenZ_nonneg data) as Hl. split.
+  { destruct ((smode =? MODE_KANJI) || (smode =? MODE_HANZI)); lia. }
+  intros ->.
+  change ((1 =? MODE_KANJI) || (1 =? MODE_HANZI)) with false. cbv iota.
+  apply find_mode_le1.
+  destruct mode as [m|].
+  - destruct (m <? (if oz_eqb (Some m) (Some MODE_BYTE) then MODE_BYTE else find_mode data)) eqn:E;
+      [discriminate Esm|]. injection Esm as ->.
+    change (oz_eqb (Some 1) (Some MODE_BYTE)) with false in E. cbv iota in E. lia.
+  - injection Esm as Esm. change (oz_eqb None (Some MODE_BYTE)) with false in Esm. cbv iota in Esm. lia.
+Qed.
+
+Lemma add_segment_count_sane acc s :
+  Forall count_sane acc -> count_sane s -> Forall count_sane (add_segment acc s).
+Proof.
+  intros HF [H0 Hs]. destruct acc as [|prev rest]; cbn [add_segment]; [constructor; [split; assumption | constructor]|].
+  destruct ((s_mode prev =? s_mode s) && oenc_eqb (s_enc prev) (s_enc s)
+            && (s_count prev mod merge_group (s_mode s) =? 0)) eqn:E.
+  - apply Forall_cons_iff in HF as [[Hp0 Hp] HF]. constructor; [|exact HF].
+    unfold count_sane. cbn [s_mode s_count]. split; [lia|]. intros Hm. specialize (Hs Hm). lia.
+  - constructor; [split; assumption | exact HF].
+Qed.
+
+(* every segment list the model's prepare_data produces satisfies the Micro QR side condition *)
+Theorem prepare_data_count_sane : forall parts segs,
+  prepare_data parts = Ok segs -> Forall count_sane segs.
+Proof.
+  unfold prepare_data. intros parts.
+  assert (G : forall acc segs, Forall count_sane acc -> prepare_aux parts acc = Ok segs -> Forall count_sane segs).
+  { induction parts as [|p r IH]; intros acc segs Hacc H; cbn [prepare_aux] in H.
+    - injection H as <-. apply Forall_rev. exact Hacc.
+    - destruct (make_segment (p_content p) (p_mode p) (p_enc p)) as [s|e] eqn:Es; [|discriminate H].
+      cbn [bind] in H. apply (IH (add_segment acc s) segs); [|exact H].
+      apply add_segment_count_sane; [exact Hacc | eapply make_segment_count_sane; exact Es]. }
+  intros segs. apply G. constructor.
+Qed.
+Print Assumptions prepare_data_count_sane.
+
+(* ------------------------------------------------------------------------------------------ *)
+(* 10. Structured Append header (QR)                                                           *)
+(* ------------------------------------------------------------------------------------------ *)
+(* literally the header reader inlined in Ref/Decoder.v decode_symbol *)
+Definition read_sa (bs : list bool) : option (Z * Z * Z) * list bool :=
+  match take 4 bs with
+  | Some (3, r) => match take 4 r with Some (idx, r1) =>
+                     match take 4 r1 with Some (tot, r2) =>
+                       match take 8 r2 with Some (par, r3) => (Some (idx, tot, par), r3)
+                       | None => (None, bs) end | None => (None, bs) end | None => (None, bs) end
+  | _ => (None, bs) end.
+
+Definition sa_header (idx total parity : Z) : bits :=
+  bits_of MODE_STRUCTURED_APPEND 4 ++ bits_of idx 4 ++ bits_of total 4 ++ bits_of parity 8.
+
+Theorem read_sa_header : forall idx total parity rest,
+  0 <= idx < 16 -> 0 <= total < 16 -> 0 <= parity < 256 ->
+  read_sa (sa_header idx total parity ++ rest) = (Some (idx, total, parity), rest).
+Proof.
+  intros idx total parity rest Hi Ht Hp. unfold read_sa, sa_header, MODE_STRUCTURED_APPEND.
+  rewrite <- !app_assoc.
+  rewrite take_bits_of by lia. cbv iota.
+  rewrite take_bits_of by lia. rewrite take_bits_of by lia. rewrite take_bits_of by lia. reflexivity.
+Qed.
+Print Assumptions read_sa_header.
+
+Lemma read_sa_none bs : take 4 bs = None -> read_sa bs = (None, bs).
+Proof. intros H. unfold read_sa. rewrite H. reflexivity. Qed.
+Lemma read_sa_not3 bs ind r : take 4 bs = Some (ind, r) -> ind <> 3 -> read_sa bs = (None, bs).
+Proof.
+  intros H Hne. unfold read_sa. rewrite H.
+  destruct ind as [|[[p|p|]|p|]|p]; first [reflexivity | exfalso; lia].
+Qed.
+
+(* a stream that starts with a written segment starts with one of the indicators 1, 2, 4, 7, 8, 13 *)
+Lemma write_segment_first_indicator s r eci bits m rest :
+  write_segment s None r eci = Ok bits -> dmode_of (s_mode s) = Some m ->
+  exists ind r', take 4 (bits ++ rest) = Some (ind, r') /\ In ind [1; 2; 4; 7; 8; 13].
+Proof.
+  intros Hws Hm.
+  destruct (write_segment_qr_inv s r eci bits Hws) as (hdr & w & Hhdr & _ & ->).
+  destruct Hhdr as [[_ (n & _ & ->)]|[_ ->]].
+  - rewrite <- !app_assoc. eexists _, _. split; [apply take_bits_of; unfold MODE_ECI; lia|].
+    unfold MODE_ECI. cbn [In]. lia.
+  - cbn [app]. rewrite <- !app_assoc. eexists _, _.
+    pose proof (dmode_of_In _ _ Hm) as Hin. cbn [In] in Hin.
+    split; [apply take_bits_of; lia|]. cbn [In]. lia.
+Qed.
+
+(* without a Structured Append header none is read *)
+Theorem read_sa_plain_stream : forall v eci sd stream tail,
+  Forall (fun p => seg_of_data (fst p) (snd p)) sd ->
+  write_segments (map fst sd) None (qr_range v) eci = Ok stream ->
+  tail_stops_qr tail ->
+  read_sa (stream ++ tail) = (None, stream ++ tail).
+Proof.
+  intros v eci sd stream tail HF Hws Htail. destruct sd as [|[s data] sd].
+  - cbn [map write_segments] in Hws. injection Hws as <-. cbn [app].
+    destruct Htail as [Hs|[t ->]].
+    + apply read_sa_none. now apply take_short.
+    + apply (read_sa_not3 _ 0 t); [apply take_4_zeros | lia].
+  - apply Forall_cons_iff in HF as [Hsd _]. cbn [fst snd] in Hsd.
+    cbn [map write_segments fst] in Hws.
+    destruct (write_segment s None (qr_range v) eci) as [a|e] eqn:Ea; [|discriminate Hws]. cbn [bind] in Hws.
+    destruct (write_segments (map fst sd) None (qr_range v) eci) as [b|e] eqn:Eb; [|discriminate Hws].
+    cbn [bind] in Hws. injection Hws as <-.
+    destruct (seg_payload s data Hsd) as (m & Hm & _ & _).
+    rewrite <- app_assoc.
+    destruct (write_segment_first_indicator s _ eci a m (b ++ tail) Ea Hm) as (ind & r' & Ht & Hin).
+    apply (read_sa_not3 _ ind r' Ht). cbn [In] in Hin. lia.
+Qed.
+Print Assumptions read_sa_plain_stream.
+
+(* Main corollary with a Structured Append header in front (as Model/Encode.v data_stream writes it) *)
+Theorem parse_symbol_stream_qr_sa : forall v l cap eci sd stream idx total parity,
+  1 <= v <= 40 ->
+  spec_capacity v l = Some cap ->
+  Forall (fun p => seg_of_data (fst p) (snd p)) sd ->
+  write_segments (map fst sd) None (qr_range v) eci = Ok stream ->
+  0 <= idx < 16 -> 0 <= total < 16 -> 0 <= parity < 256 ->
+  lenZ (sa_header idx total parity ++ stream) <= cap ->
+  forall bs, bs = iso_pad_kf v cap (sa_header idx total parity ++ stream)
+          \/ bs = iso_pad v cap (sa_header idx total parity ++ stream) ->
+  exists tail, bs = sa_header idx total parity ++ stream ++ tail /\
+    read_sa bs = (Some (idx, total, parity), stream ++ tail) /\
+    parse_qr (S (List.length (stream ++ tail))) v None (stream ++ tail) [] = Some (expected_dsegs eci sd, tail).
+Proof.
+  intros v l cap eci sd stream idx total parity Hv Hcap HF Hws Hi Ht Hp Hlen bs Hbs.
+  destruct (capacity_mod8 v l cap ltac:(lia) Hcap) as [Hc0 Hc8].
+  assert (Hform : exists k more, bs = (sa_header idx total parity ++ stream) ++ repeat false (Z.to_nat k) ++ more /\
+             0 <= k <= iso_terminator_length v /\ (k = iso_terminator_length v \/ more = [])).
+  { destruct Hbs as [-> | ->]; [apply pad_kf_tail_form | apply pad_tail_form]; try assumption; lia. }
+  destruct Hform as (k & more & -> & Hk & Hfull). rewrite qr_terminator in Hk, Hfull by lia.
+  exists (repeat false (Z.to_nat k) ++ more). rewrite <- app_assoc.
+  split; [reflexivity|]. split; [now apply read_sa_header|].
+  apply write_segments_parse_qr_decoder_fuel; try assumption.
+  - apply (fits_seg_ok_qr v l cap eci sd stream); try assumption.
+    rewrite lenZ_app in Hlen. pose proof (lenZ_nonneg (sa_header idx total parity)). lia.
+  - now apply tail_stops_qr_zeros.
+Qed.
+Print Assumptions parse_symbol_stream_qr_sa.
+
+(* ------------------------------------------------------------------------------------------ *)
+(* 11. link to the model's data_stream (Model/Encode.v) through PadLemmas.pad_model_is_iso_kf   *)
+(* ------------------------------------------------------------------------------------------ *)
+Theorem data_stream_parse_qr : forall v error eci sd buff,
+  1 <= v <= 40 ->
+  Forall (fun p => seg_of_data (fst p) (snd p)) sd ->
+  data_stream (map fst sd) error v eci None = Ok buff ->
+  (forall stream cap, write_segments (map fst sd) None (qr_range v) eci = Ok stream ->
+                      capacity v error = Ok cap -> lenZ stream <= cap) ->
+  exists cap stream tail,
+    capacity v error = Ok cap /\ write_segments (map fst sd) None (qr_range v) eci = Ok stream /\
+    firstn (Z.to_nat cap) buff = stream ++ tail /\
+    parse_qr (S (List.length (firstn (Z.to_nat cap) buff))) v None (firstn (Z.to_nat cap) buff) []
+    = Some (expected_dsegs eci sd, tail).
+Proof.
+  intros v error eci sd buff Hv HF H Hfit. unfold data_stream in H. cbv zeta in H.
+  destruct (v <? 1) eqn:E; [lia|]. rewrite version_range_qr in H by lia. cbn [bind] in H.
+  destruct (write_segments (map fst sd) None (qr_range v) eci) as [stream|e] eqn:Hws; [|discriminate H].
+  cbn [bind] in H.
+  destruct (capacity v error) as [cap|e] eqn:Hcap; [|discriminate H]. cbn [bind app] in H.
+  destruct (write_terminator stream cap None) as [b1|e] eqn:Hwt; [|discriminate H]. cbn [bind] in H.
+  injection H as <-.
+  specialize (Hfit stream cap eq_refl eq_refl).
+  pose proof (capacity_spec _ _ _ Hcap) as Hspec. clear Hcap. rename Hspec into Hcap.
+  destruct (capacity_mod8 v error cap ltac:(lia) Hcap) as [Hc0 Hc8].
+  assert (Epad : firstn (Z.to_nat cap) (write_pad_codewords (write_padding_bits b1 v) v cap)
+                 = iso_pad_kf v cap stream).
+  { apply pad_model_is_iso_kf; try assumption; try lia. rewrite E. exact Hwt. }
+  destruct (parse_symbol_stream_qr v error cap eci sd stream Hv Hcap HF Hws Hfit _ (or_introl eq_refl))
+    as (tail & Htail & Hparse).
+  exists cap, stream, tail. rewrite Epad. repeat split; first [assumption | reflexivity].
+Qed.
+Print Assumptions data_stream_parse_qr.
+
+Theorem data_stream_parse_micro : forall v error sd buff,
+  -3 <= v <= 0 ->
+  Forall (fun p => seg_of_data (fst p) (snd p)) sd ->
+  Forall (fun p => count_sane (fst p)) sd ->
+  data_stream (map fst sd) error v false None = Ok buff ->
+  (forall stream cap, write_segments (map fst sd) (Some v) v false = Ok stream ->
+                      capacity v error = Ok cap -> lenZ stream <= cap) ->
+  exists cap stream tail,
+    capacity v error = Ok cap /\ write_segments (map fst sd) (Some v) v false = Ok stream /\
+    firstn (Z.to_nat cap) buff = stream ++ tail /\
+    parse_micro (S (List.length (firstn (Z.to_nat cap) buff))) v (firstn (Z.to_nat cap) buff) []
+    = Some (expected_dsegs false sd, tail).
+Proof.
+  intros v error sd buff Hv HF Hsane H Hfit. unfold data_stream in H. cbv zeta in H.
+  destruct (v <? 1) eqn:E; [|lia]. cbn [bind] in H.
+  destruct (write_segments (map fst sd) (Some v) v false) as [stream|e] eqn:Hws; [|discriminate H].
+  cbn [bind] in H.
+  destruct (capacity v error) as [cap|e] eqn:Hcap; [|discriminate H]. cbn [bind app] in H.
+  destruct (write_terminator stream cap (Some v)) as [b1|e] eqn:Hwt; [|discriminate H]. cbn [bind] in H.
+  injection H as <-.
+  specialize (Hfit stream cap eq_refl eq_refl).
+  pose proof (capacity_spec _ _ _ Hcap) as Hspec. clear Hcap. rename Hspec into Hcap.
+  destruct (capacity_mod8 v error cap ltac:(lia) Hcap) as [Hc0 Hc8].
+  assert (Epad : firstn (Z.to_nat cap) (write_pad_codewords (write_padding_bits b1 v) v cap)
+                 = iso_pad_kf v cap stream).
+  { apply pad_model_is_iso_kf; try assumption; try lia. rewrite E. exact Hwt. }
+  assert (Hnz : Forall (fun p => s_mode (fst p) = 1 -> s_count (fst p) <> 0) sd).
+  { apply Forall_forall. intros p Hin. exact (proj2 (proj1 (Forall_forall _ _) Hsane p Hin)). }
+  destruct (parse_symbol_stream_micro v error cap sd stream Hv Hcap HF Hnz Hws Hfit _ (or_introl eq_refl))
+    as (tail & Htail & Hparse).
+  exists cap, stream, tail. rewrite Epad. repeat split; first [assumption | reflexivity].
+Qed.
+Print Assumptions data_stream_parse_micro.
+
+(* ------------------------------------------------------------------------------------------ *)
+(* 12. the hypotheses are satisfiable: "01234567" + "AC-42" in 1-L, and "123" in M1             *)
+(* ------------------------------------------------------------------------------------------ *)
+Definition ex_num : segment * list Z :=
+  let d := [48; 49; 50; 51; 52; 53; 54; 55] in
+  ({| s_bits := pack_numeric (S (List.length d)) d; s_count := 8; s_mode := 1; s_enc := None |}, d).
+Definition ex_aln : segment * list Z :=
+  let d := [65; 67; 45; 52; 50] in
+  ({| s_bits := pack_alnum d; s_count := 5; s_mode := 2; s_enc := None |}, d).
+
+Lemma ex_num_ok : seg_of_data (fst ex_num) (snd ex_num).
+Proof.
+  split; [reflexivity|]. split; [reflexivity|]. left. split; [reflexivity|].
+  cbn [ex_num snd]. repeat (constructor; [lia|]). constructor.
+Qed.
+Lemma ex_aln_ok : seg_of_data (fst ex_aln) (snd ex_aln).
+Proof.
+  split; [reflexivity|]. split; [reflexivity|]. right; left. split; [reflexivity|].
+  cbn [ex_aln snd]. repeat (constructor; [apply is_alnum_char_In; reflexivity|]). constructor.
+Qed.
+
+Example parse_example_qr :
+  exists stream tail,
+    write_segments (map fst [ex_num; ex_aln]) None (qr_range 1) false = Ok stream /\
+    iso_pad 1 152 stream = stream ++ tail /\
+    parse_qr (S (List.length (iso_pad 1 152 stream))) 1 None (iso_pad 1 152 stream) []
+    = Some (expected_dsegs false [ex_num; ex_aln], tail).
+Proof.
+  destruct (write_segments (map fst [ex_num; ex_aln]) None (qr_range 1) false) as [stream|e] eqn:Hws.
+  2:{ vm_compute in Hws. discriminate Hws. }
+  assert (Hlen : lenZ stream <= 152).
+  { vm_compute in Hws. injection Hws as <-. vm_compute. discriminate. }
+  assert (HF : Forall (fun p => seg_of_data (fst p) (snd p)) [ex_num; ex_aln]).
+  { constructor; [exact ex_num_ok|]. constructor; [exact ex_aln_ok|]. constructor. }
+  assert (Hcap : spec_capacity 1 (Some 1) = Some 152) by reflexivity.
+  assert (Hv : 1 <= 1 <= 40) by lia.
+  destruct (parse_symbol_stream_qr 1 (Some 1) 152 false [ex_num; ex_aln] stream Hv Hcap HF Hws Hlen
+              (iso_pad 1 152 stream) (or_intror eq_refl)) as (tail & Ht & Hp).
+  exists stream, tail. repeat split; assumption.
+Qed.
+
+Example parse_example_m1 :
+  let d := [49; 50; 51] in
+  let s := {| s_bits := pack_numeric (S (List.length d)) d; s_count := 3; s_mode := 1; s_enc := None |} in
+  parse_micro 21 (-3) (iso_pad (-3) 20 (bits_of 3 3 ++ s_bits s)) []
+  = Some ([{| d_mode := DNumeric; d_eci := None; d_count := 3; d_bytes := d |}],
+          [false; false; false; false; false; false; false]).
+Proof. vm_compute. reflexivity. Qed.
